@@ -18,6 +18,7 @@ from gnpy.tools.json_io import network_to_json
 from vf import attach, workload as W
 from vf.gen import common as G
 from vf.props import _prop_common as P
+from vf import stock
 from vf.props.c03 import make_si
 
 ID = 'C06'
@@ -31,9 +32,9 @@ RULE = ('generated designed meshes whose ROADMs carry node-level policies (power
 ASSUMPTIONS = ['target resolution taken from the configured documents, not from the designed element',
                'channel centre frequencies lie inside the frequency ranges of the impairment profiles',
                'tolerance 1e-9 dB on output power; P_out <= P_in + 1e-12 dB always']
-REQUIRED_COUNTERS = {'roadm_crossings': 100, 'direct_crossings': 40, 'below_target_channels': 20,
+REQUIRED_COUNTERS = {'stock_tests_run': 5, 'stock_roadm_crossings': 50, 'roadm_crossings': 100, 'direct_crossings': 40, 'below_target_channels': 20,
                      'above_target_channels': 20, 'per_degree_override_crossings': 10, 'policy_loads': 8}
-CASE_TIMEOUT = {'quick': 120, 'thorough': 300}
+CASE_TIMEOUT = {'quick': 400, 'thorough': 1800}
 
 POLICIES = ['target_pch_out_db', 'target_psd_out_mWperGHz', 'target_out_mWperSlotWidth']
 
@@ -41,7 +42,9 @@ POLICIES = ['target_pch_out_db', 'target_psd_out_mWperGHz', 'target_out_mWperSlo
 def plan(tier, seed):
     n = 1200 if tier == 'quick' else 16000
     kinds = ['net', 'net', 'direct', 'direct', 'policy', 'direct']
-    return [{'idx': i, 'kind': kinds[i % len(kinds)]} for i in range(n)]
+    cases = [{'idx': i, 'kind': kinds[i % len(kinds)]} for i in range(n)]
+    # the repository's own tests as one more workload, with the monitors on (no ROADM amplifies)
+    return cases + stock.stock_cases(tier, n, ID)
 
 
 def synthetic_roadm_variety(rng):
@@ -369,7 +372,9 @@ def run_policy(case, ctx):
 
 
 def run_case(case, ctx):
-    if case['kind'] == 'net':
+    if case['kind'] == 'stock':
+        stock.run_stock_case(case, ctx, ID)
+    elif case['kind'] == 'net':
         run_net(case, ctx)
     elif case['kind'] == 'direct':
         run_direct(case, ctx)
